@@ -93,6 +93,14 @@ type FileRestorer struct {
 	// field (it compares with the line the literal starts on), so a comment added at this position
 	// must not be stored in a Comment field.
 	cursorAfterMultiLineLiteral token.Pos
+
+	// The comment group that the last free-standing comment was added to, and the cursor position
+	// directly after that comment. The parser collects comments that follow each other (on the
+	// same line, or on consecutive lines when the first one starts its line) into one group, and
+	// go/printer treats a group as a unit, so we do the same.
+	lastGroup          *ast.CommentGroup
+	cursorAfterComment token.Pos
+	lastGroupOwnLine   bool
 }
 
 // Print uses format.Node to print a *dst.File to stdout
@@ -134,6 +142,8 @@ func (r *FileRestorer) RestoreFile(file *dst.File) (*ast.File, error) {
 	r.comments = []*ast.CommentGroup{}
 	r.cursorAtNewLine = 0
 	r.cursorAfterMultiLineLiteral = 0
+	r.lastGroup = nil
+	r.cursorAfterComment = 0
 	r.packageNames = map[string]string{}
 
 	r.base = r.Fset.Base() // base is the pos that the file will start at in the fset
@@ -668,12 +678,31 @@ func (r *FileRestorer) applyDecorations(node ast.Node, name string, decorations 
 				// for comments on the same line as the end of a node that has a Comment field, we
 				// add the comment to the node instead of the file.
 				r.addCommentField(node, r.cursor, d)
+				r.lastGroup = nil
 			} else {
-				r.comments = append(r.comments, &ast.CommentGroup{List: []*ast.Comment{{Slash: r.cursor, Text: d}}})
+				c := &ast.Comment{Slash: r.cursor, Text: d}
+				if r.lastGroup != nil && r.cursor == r.cursorAfterComment {
+					// directly follows the previous comment: same group
+					r.lastGroup.List = append(r.lastGroup.List, c)
+				} else {
+					r.lastGroup = &ast.CommentGroup{List: []*ast.Comment{c}}
+					r.lastGroupOwnLine = r.cursor == r.cursorAtNewLine || r.cursor == token.Pos(r.base)
+					r.comments = append(r.comments, r.lastGroup)
+				}
 			}
 			r.cursor += token.Pos(len(d))
 			if afterMultiLineLiteral {
 				r.cursorAfterMultiLineLiteral = r.cursor
+			}
+			r.cursorAfterComment = r.cursor
+			if isLineComment {
+				if r.lastGroupOwnLine {
+					// the next line may continue the group
+					r.cursorAfterComment = r.cursor + 1
+				} else {
+					// a trailing line comment ends its group
+					r.lastGroup = nil
+				}
 			}
 		}
 
